@@ -321,4 +321,373 @@ theorem tickStepper_faild {fn : Nat} {e : Exc} {t0 : List Act} (P : Prog) (c : C
     | over hterm _ => rw [hl] at hterm; cases hterm
     | held wf wk aw hst _ _ => rw [hst]; simp [wfOf]
 
+/-! ### events other than the stepping task, a done-callback and `resume()`: quiet, or terminating -/
+
+theorem UnresA.quiet {fn : Nat} {aw : List (Nat × Nat)} {t0 : List Act} {c d : Cfg} (h : UnresA fn aw t0 c)
+    (q : QuietU c d) : UnresA fn aw t0 d := by
+  cases h with
+  | waiting wf hst he ht =>
+    refine .waiting wf (q.1.trans hst) ?_ (q.2.1.trans ht)
+    rcases q.2.2 wf (by rw [hst]; rfl) with g | ⟨_, k, g⟩
+    · rw [g]; exact he
+    · exact Or.inr ⟨k, g⟩
+  | over hterm ht => exact .over (by rw [q.1]; exact hterm) (q.2.1.trans ht)
+
+theorem FailD.quiet {fn : Nat} {e : Exc} {t0 : List Act} {c d : Cfg} (h : FailD fn e t0 c) (q : QuietU c d) :
+    FailD fn e t0 d := by
+  cases h with
+  | held wf wk aw hst hh ht =>
+    refine .held wf wk aw (q.1.trans hst) ?_ (q.2.1.trans ht)
+    rcases q.2.2 wf (by rw [hst]; rfl) with g | ⟨g, _⟩
+    · unfold HoldsF at *; rw [g]; exact hh
+    · rcases hh with g' | ⟨⟨k, g'⟩, _⟩ <;> rw [g] at g' <;> cases g'
+  | over hterm ht => exact .over (by rw [q.1]; exact hterm) (q.2.1.trans ht)
+
+theorem play_wfs (c : Cfg) : (play c).1.wfs = c.wfs := by
+  unfold play
+  split
+  · split
+    · exact (cancelAction_rest c _).1.wfs
+    · rfl
+  · dsimp only; split <;> rfl
+
+theorem kill_quietU (c : Cfg) : QuietU c (kill c).1 ∨ (terminal (kill c).1.st.label = true ∧ (kill c).1.trace = c.trace) := by
+  unfold kill
+  split
+  · exact Or.inl (QuietU.of_eq rfl rfl rfl)
+  · split
+    · exact Or.inl (QuietU.of_eq rfl rfl rfl)
+    · split
+      · exact Or.inl (hand_quietU c c _ (QuietU.of_eq rfl rfl rfl))
+      · split
+        · dsimp only
+          split
+          · exact Or.inl (hand_quietU _ _ _ (requestInterrupt_quietU c .kill))
+          · exact Or.inl (requestInterrupt_quietU c .kill)
+        · exact Or.inr ⟨transitionTo_terminal c .killed terminal_killed, (transitionTo_core c .killed).trace⟩
+
+theorem fail_quietU (c : Cfg) (e : Exc) :
+    QuietU c (fail c e).1 ∨ (terminal (fail c e).1.st.label = true ∧ (fail c e).1.trace = c.trace) := by
+  unfold fail; split
+  · exact Or.inl (QuietU.of_eq rfl rfl rfl)
+  · exact Or.inr ⟨transitionTo_terminal c _ (terminal_excepted e), (transitionTo_core c _).trace⟩
+
+/-- an event that is neither a callback of the stepping task, nor a done-callback, nor a `resume()`, leaves the state
+object, the trace and the wait alone (at most an interruption is written into the pending wait) — or terminates the process -/
+theorem step_quietU (P : Prog) (c : Cfg) (ev : Ev) (hnt : ev ≠ .tick) (hna : ∀ g, ev ≠ .tickCb (.adone g))
+    (hnr : ∀ v, ev ≠ .resume v) :
+    QuietU c (step P c ev).1 ∨ (terminal (step P c ev).1.st.label = true ∧ (step P c ev).1.trace = c.trace) := by
+  cases ev with
+  | tick => exact absurd rfl hnt
+  | resume v => exact absurd rfl (hnr v)
+  | tickCb cb =>
+    simp only [step]
+    unfold tickCb; split
+    · cases cb with
+      | adone g => exact absurd rfl (hna g)
+      | trykill =>
+        dsimp only
+        rcases kill_quietU { c with ready := c.ready.erase Cb.trykill } with q | ⟨a, b⟩
+        · exact Or.inl ⟨q.1, q.2.1, q.2.2⟩
+        · exact Or.inr ⟨a, b⟩
+      | usercb r =>
+        dsimp only
+        split
+        · rcases fail_quietU { c with ready := c.ready.erase (Cb.usercb r) } (.user 8) with q | ⟨a, b⟩
+          · exact Or.inl ⟨q.1, q.2.1, q.2.2⟩
+          · exact Or.inr ⟨a, b⟩
+        · exact Or.inl (QuietU.of_eq rfl rfl rfl)
+    · exact Or.inl (QuietU.of_eq rfl rfl rfl)
+  | pause => exact Or.inl (pause_quietU c)
+  | play => exact Or.inl (QuietU.of_eq (play_bf c).st (play_trace c) (play_wfs c))
+  | kill => exact kill_quietU c
+  | fail e => exact fail_quietU c e
+  | cancelFut =>
+    simp only [step]
+    unfold cancelFut; split
+    · exact Or.inl (QuietU.of_eq rfl rfl rfl)
+    · exact Or.inl (QuietU.of_eq rfl rfl rfl)
+  | complete f o =>
+    simp only [step]
+    unfold complete; split
+    · dsimp only; split <;> exact Or.inl (QuietU.of_eq rfl rfl rfl)
+    · exact Or.inl (QuietU.of_eq rfl rfl rfl)
+  | callSoon r => exact Or.inl (QuietU.of_eq rfl rfl rfl)
+
+/-! ### the context and the awaitables' results are stable -/
+
+theorem kill_ce (c : Cfg) : (kill c).1.ctx = c.ctx ∧ (kill c).1.efs = c.efs := by
+  rcases kill_cases c with f | e
+  · exact ⟨f.ctx, f.efs⟩
+  · rw [e]; exact ⟨(transitionTo_x c _).1, (transitionTo_x c _).2.1⟩
+
+theorem fail_ce (c : Cfg) (e : Exc) : (fail c e).1.ctx = c.ctx ∧ (fail c e).1.efs = c.efs := by
+  unfold fail; split
+  · exact ⟨rfl, rfl⟩
+  · exact ⟨(transitionTo_x c _).1, (transitionTo_x c _).2.1⟩
+
+/-- every event except an awaitable's done-callback leaves the context alone, and no event changes the result of a
+completed awaitable -/
+theorem step_stable (P : Prog) (hP : AwDistinct P) (c : Cfg) (ev : Ev) (hR : Reach c)
+    (hna : ∀ g, ev ≠ .tickCb (.adone g)) :
+    (step P c ev).1.ctx = c.ctx ∧
+    ∀ (f : Nat) (v : Val), c.efs[f]? = some (EFut.result v) → (step P c ev).1.efs[f]? = some (EFut.result v) := by
+  have hof : ∀ d : Cfg, d.ctx = c.ctx ∧ d.efs = c.efs →
+      d.ctx = c.ctx ∧ ∀ (f : Nat) (v : Val), c.efs[f]? = some (EFut.result v) → d.efs[f]? = some (EFut.result v) :=
+    fun d h => ⟨h.1, fun f v hv => by rw [h.2]; exact hv⟩
+  cases ev with
+  | tick =>
+    have := tickStepper_R P hP c ⟨hR.g, rfl, rfl⟩ hR.invB hR.coh
+    exact hof _ ⟨this.ctx, this.efs⟩
+  | tickCb cb =>
+    simp only [step]
+    unfold tickCb; split
+    · cases cb with
+      | adone g => exact absurd rfl (hna g)
+      | trykill => exact hof _ (kill_ce { c with ready := c.ready.erase Cb.trykill })
+      | usercb r =>
+        dsimp only
+        split
+        · exact hof _ (fail_ce { c with ready := c.ready.erase (Cb.usercb r) } (.user 8))
+        · exact hof _ ⟨rfl, rfl⟩
+    · exact hof _ ⟨rfl, rfl⟩
+  | pause => exact hof _ ⟨(pause_bf c).ctx, (pause_bf c).efs⟩
+  | play => exact hof _ ⟨(play_bf c).ctx, (play_bf c).efs⟩
+  | kill => exact hof _ (kill_ce c)
+  | resume v =>
+    simp only [step]
+    unfold resume; split
+    · exact hof _ ⟨(deliver_g c _).2.2.2.2.2.2, (deliver_g c _).2.2.2.2.1⟩
+    · exact hof _ ⟨rfl, rfl⟩
+  | fail e => exact hof _ (fail_ce c e)
+  | cancelFut =>
+    simp only [step]
+    unfold cancelFut; split <;> exact hof _ ⟨rfl, rfl⟩
+  | complete f o =>
+    simp only [step]
+    unfold complete; split
+    · rename_i hp
+      have key : ∀ (f' : Nat) (v : Val), c.efs[f']? = some (EFut.result v) → (setAt c.efs f o)[f']? = some (EFut.result v) := by
+        intro f' v hv
+        by_cases hff : f = f'
+        · subst hff; rw [hp] at hv; cases hv
+        · simpa [setAt, List.getElem?_set, hff] using hv
+      dsimp only; split <;> exact ⟨rfl, key⟩
+    · exact hof _ ⟨rfl, rfl⟩
+  | callSoon r => exact hof _ ⟨rfl, rfl⟩
+
+theorem tickCb_noop (c : Cfg) (cb : Cb) (h : cb ∉ c.ready) : tickCb c cb = c := by
+  unfold tickCb
+  split
+  · rename_i hc; exact absurd (List.contains_iff_mem.mp hc) h
+  · rfl
+
+/-- while the current state awaits nothing, no done-callback is scheduled -/
+theorem no_adone_ready {c : Cfg} (hg : G c) (hl : terminal c.st.label = false) (haw : awOf c.st = []) (g : Nat) :
+    Cb.adone g ∉ c.ready := by
+  have := hg.ns hl g
+  rw [haw] at this
+  have h0 : c.ready.count (Cb.adone g) = 0 := by simp at this; omega
+  exact List.count_eq_zero.mp h0
+
+/-! ### `_awaitable_done` and `Waiting._deliver`, computed -/
+
+theorem awaitableDone_exc (c : Cfg) (fn wf : Nat) (wk : Option WF) (aw : List (Nat × Nat)) (g key : Nat) (e : Exc)
+    (hst : c.st = .waiting fn wf wk aw) (hfind : aw.find? (·.1 = g) = some (g, key)) (hv : c.efs[g]? = some (.exc e)) :
+    awaitableDone c g = deliver { c with st := .waiting fn wf wk (aw.filter (·.1 ≠ g)) } (.failed e) := by
+  unfold awaitableDone
+  simp only [hst, hfind, hv]
+
+theorem awaitableDone_res_last (c : Cfg) (fn wf : Nat) (wk : Option WF) (aw : List (Nat × Nat)) (g key : Nat) (v : Val)
+    (hst : c.st = .waiting fn wf wk aw) (hfind : aw.find? (·.1 = g) = some (g, key)) (hv : c.efs[g]? = some (.result v))
+    (hrest : (aw.filter (·.1 ≠ g)).isEmpty = true) :
+    awaitableDone c g = deliver { c with st := .waiting fn wf wk (aw.filter (·.1 ≠ g)), ctx := (key, v) :: c.ctx.filter (·.1 ≠ key) } (.result none) := by
+  unfold awaitableDone
+  simp only [hst, hfind, hv, hrest, if_true]
+
+theorem awaitableDone_res_more (c : Cfg) (fn wf : Nat) (wk : Option WF) (aw : List (Nat × Nat)) (g key : Nat) (v : Val)
+    (hst : c.st = .waiting fn wf wk aw) (hfind : aw.find? (·.1 = g) = some (g, key)) (hv : c.efs[g]? = some (.result v))
+    (hrest : (aw.filter (·.1 ≠ g)).isEmpty = false) :
+    awaitableDone c g = { c with st := .waiting fn wf wk (aw.filter (·.1 ≠ g)), ctx := (key, v) :: c.ctx.filter (·.1 ≠ key) } := by
+  unfold awaitableDone
+  simp only [hst, hfind, hv, hrest, Bool.false_eq_true, if_false]
+
+/-- delivering an outcome to a wait that holds nothing: the outcome is stored in the future, or parked -/
+theorem deliver_unres (c : Cfg) (fn wf : Nat) (aw : List (Nat × Nat)) (o : WF) (hst : c.st = .waiting fn wf none aw)
+    (he : c.wfs[wf]? = some .pending ∨ ∃ k, c.wfs[wf]? = some (.interrupted k)) :
+    ∃ wk', (deliver c o).st = .waiting fn wf wk' aw ∧
+      ((deliver c o).wfs[wf]? = some o ∨ ((∃ k, (deliver c o).wfs[wf]? = some (.interrupted k)) ∧ wk' = some o)) ∧
+      (deliver c o).trace = c.trace := by
+  rcases he with hp | ⟨k, hk⟩
+  · have hlt : wf < c.wfs.length := (List.getElem?_eq_some_iff.mp hp).1
+    have : deliver c o = { c with wfs := setAt c.wfs wf o } := by unfold deliver; simp only [hst, hp]
+    rw [this]
+    exact ⟨none, hst, Or.inl (by simp [setAt, hlt]), rfl⟩
+  · have : deliver c o = { c with st := .waiting fn wf (some o) aw } := by unfold deliver; simp [hst, hk]
+    rw [this]
+    exact ⟨some o, rfl, Or.inr ⟨⟨k, hk⟩, rfl⟩, rfl⟩
+
+/-- a wait that holds a failure ignores every further delivery -/
+theorem deliver_heldF_noop (c : Cfg) (o : WF) (fn wf : Nat) (wk : Option WF) (aw : List (Nat × Nat)) (e : Exc)
+    (hst : c.st = .waiting fn wf wk aw) (hh : HoldsF c wf wk e) : deliver c o = c := by
+  unfold deliver
+  rcases hh with g | ⟨⟨k, g⟩, hwk⟩
+  · simp [hst, g]
+  · simp [hst, g, hwk]
+
+/-! ### `Bar` -/
+
+inductive Bar (fn : Nat) (aw0 : List (Nat × Nat)) (t0 : List Act) (c : Cfg) : Prop
+  | pre (wf : Nat) (aw : List (Nat × Nat)) (hst : c.st = .waiting fn wf none aw)
+      (he : c.wfs[wf]? = some .pending ∨ ∃ k, c.wfs[wf]? = some (.interrupted k)) (ht : c.trace = t0)
+      (hf : PreF aw0 aw c)
+  | res (v : Option Val) (hd : Deliv fn v t0 c) (hall : c.trace = t0 → terminal c.st.label = false → AllRes aw0 c)
+  | failed (e : Exc) (hf : FailD fn e t0 c)
+  | over (hterm : terminal c.st.label = true) (ht : c.trace = t0)
+
+theorem Bar.of_unresA {fn aw0 t0 aw} {c : Cfg} (h : UnresA fn aw t0 c) (hf : PreF aw0 aw c) : Bar fn aw0 t0 c := by
+  cases h with
+  | waiting wf hst he ht => exact .pre wf aw hst he ht hf
+  | over hterm ht => exact .over hterm ht
+
+/-- a configuration with the wait for `fn` held with `v`, every awaitable processed with a result -/
+theorem Bar.of_held {fn aw0 t0} {d : Cfg} (v : Option Val) (wf : Nat) (wk : Option WF) (aw : List (Nat × Nat))
+    (hst : d.st = .waiting fn wf wk aw) (hh : Holds d wf wk v) (ht : d.trace = t0) (hall : AllRes aw0 d) : Bar fn aw0 t0 d :=
+  .res v (.held wf wk aw hst hh ht) (fun _ _ => hall)
+
+/-! ### `Bar` while nothing has been delivered -/
+
+/-- `_awaitable_done` for an awaited, completed future `g` while nothing has been delivered to the wait -/
+theorem awaitableDone_pre {fn : Nat} {aw0 : List (Nat × Nat)} {t0 : List Act} (c : Cfg) (g key : Nat) (o : EFut)
+    (wf : Nat) (aw : List (Nat × Nat)) (hst : c.st = .waiting fn wf none aw)
+    (he : c.wfs[wf]? = some .pending ∨ ∃ k, c.wfs[wf]? = some (.interrupted k)) (ht : c.trace = t0)
+    (hf : PreF aw0 aw c) (hnd : DistinctF aw) (hfind : aw.find? (·.1 = g) = some (g, key))
+    (ho : c.efs[g]? = some o) (hne : o ≠ .pending) : Bar fn aw0 t0 (awaitableDone c g) := by
+  have hpm : (g, key) ∈ aw := List.mem_of_find?_eq_some hfind
+  have hsub' : ∀ p ∈ aw.filter (·.1 ≠ g), p ∈ aw0 := fun p hp => hf.sub p (List.mem_filter.mp hp).1
+  cases o with
+  | pending => exact absurd rfl hne
+  | exc e =>
+    rw [awaitableDone_exc c fn wf none aw g key e hst hfind ho]
+    obtain ⟨wk', h1, h2, h3⟩ := deliver_unres { c with st := .waiting fn wf none (aw.filter (·.1 ≠ g)) }
+      fn wf (aw.filter (·.1 ≠ g)) (.failed e) rfl he
+    exact .failed e (.held wf wk' _ h1 h2 (h3.trans ht))
+  | result v =>
+    -- the new facts: `(g, key)` is done, everything else is as before
+    have hf' : PreF aw0 (aw.filter (·.1 ≠ g))
+        { c with st := .waiting fn wf none (aw.filter (·.1 ≠ g)), ctx := (key, v) :: c.ctx.filter (·.1 ≠ key) } := by
+      refine ⟨hsub', ?_⟩
+      have hnew : ∃ f' v', (f', key) ∈ aw0 ∧ c.efs[f']? = some (EFut.result v') ∧
+          (key, v') ∈ (key, v) :: c.ctx.filter (·.1 ≠ key) :=
+        ⟨g, v, hf.sub _ hpm, ho, List.mem_cons_self⟩
+      intro f k hk
+      rcases hf.done f k hk with hin | hdone
+      · by_cases hfg : f = g
+        · subst hfg
+          have : k = key := distinct_key_unique aw hnd f k key hin hpm
+          subst this
+          exact Or.inr ⟨⟨v, ho⟩, hnew⟩
+        · exact Or.inl (List.mem_filter.mpr ⟨hin, by simpa using hfg⟩)
+      · right
+        obtain ⟨hv0, f', v', h1, h2, h3⟩ := hdone
+        refine ⟨hv0, ?_⟩
+        by_cases hkk : k = key
+        · subst hkk; exact hnew
+        · exact ⟨f', v', h1, h2, List.mem_cons_of_mem _ (List.mem_filter.mpr ⟨h3, by simpa using hkk⟩)⟩
+    cases hrest : (aw.filter (·.1 ≠ g)).isEmpty with
+    | false =>
+      rw [awaitableDone_res_more c fn wf none aw g key v hst hfind ho hrest]
+      exact .pre wf _ rfl he ht hf'
+    | true =>
+      rw [awaitableDone_res_last c fn wf none aw g key v hst hfind ho hrest]
+      have hnil : aw.filter (·.1 ≠ g) = [] := List.isEmpty_iff.mp hrest
+      obtain ⟨wk', h1, h2, h3⟩ := deliver_unres
+        { c with st := .waiting fn wf none (aw.filter (·.1 ≠ g)), ctx := (key, v) :: c.ctx.filter (·.1 ≠ key) }
+        fn wf (aw.filter (·.1 ≠ g)) (.result none) rfl he
+      have hg := deliver_g
+        { c with st := .waiting fn wf none (aw.filter (·.1 ≠ g)), ctx := (key, v) :: c.ctx.filter (·.1 ≠ key) } (.result none)
+      rw [hnil] at hf'
+      refine Bar.of_held none wf wk' _ h1 h2 (h3.trans ht) ?_
+      intro f k hk
+      exact (hf'.allRes f k hk).congr hg.2.2.2.2.2.2 hg.2.2.2.2.1
+
+/-- the done-callback of `g` while nothing has been delivered to the wait -/
+theorem adone_pre {fn : Nat} {aw0 : List (Nat × Nat)} {t0 : List Act} (c : Cfg) (g : Nat) (hR : Reach c)
+    (wf : Nat) (aw : List (Nat × Nat)) (hst : c.st = .waiting fn wf none aw)
+    (he : c.wfs[wf]? = some .pending ∨ ∃ k, c.wfs[wf]? = some (.interrupted k)) (ht : c.trace = t0)
+    (hf : PreF aw0 aw c) : Bar fn aw0 t0 (tickCb c (.adone g)) ∧ (tickCb c (.adone g)).trace = t0 := by
+  refine ⟨?_, (tickCb_trace c _).trans ht⟩
+  by_cases hmem : Cb.adone g ∈ c.ready
+  · have hlive : terminal c.st.label = false := by rw [hst]; exact terminal_waiting ..
+    have hnd : DistinctF aw := by have := hR.g.nd; rw [hst] at this; exact this
+    -- `g` is awaited
+    have hpos : 0 < aw.countP (·.1 = g) := by
+      have h1 := hR.g.ns hlive g
+      rw [hst] at h1
+      have h2 : 0 < c.ready.count (Cb.adone g) := List.count_pos_iff.mpr hmem
+      have h1' : c.ready.count (Cb.adone g) + c.efCb.count g ≤ aw.countP (·.1 = g) := h1
+      omega
+    obtain ⟨a, ha, hag⟩ := List.countP_pos_iff.mp hpos
+    cases hfind : aw.find? (·.1 = g) with
+    | none =>
+      rw [List.find?_eq_none] at hfind
+      exact absurd hag (hfind a ha)
+    | some p =>
+      have hp1 : p.1 = g := by simpa using List.find?_some hfind
+      obtain ⟨g', key⟩ := p
+      have : g' = g := hp1
+      subst this
+      -- the future is done
+      obtain ⟨o, ho, hne⟩ := hR.g.rd g' hmem
+      have htick : tickCb c (.adone g') = awaitableDone { c with ready := c.ready.erase (Cb.adone g') } g' := by
+        unfold tickCb
+        rw [if_pos (List.contains_iff_mem.mpr hmem)]
+      rw [htick]
+      exact awaitableDone_pre { c with ready := c.ready.erase (Cb.adone g') } g' key o wf aw hst he ht
+        (hf.mono rfl (fun _ _ h => h)) hnd hfind ho hne
+  · rw [tickCb_noop c _ hmem]; exact .pre wf aw hst he ht hf
+
+/-- `resume(v)` while nothing is awaited and nothing has been delivered: the wait now holds `v` -/
+theorem resume_pre {fn : Nat} {aw0 : List (Nat × Nat)} {t0 : List Act} (c : Cfg) (v : Option Val)
+    (wf : Nat) (hst : c.st = .waiting fn wf none [])
+    (he : c.wfs[wf]? = some .pending ∨ ∃ k, c.wfs[wf]? = some (.interrupted k)) (ht : c.trace = t0)
+    (hf : PreF aw0 [] c) : Bar fn aw0 t0 (resume c v).1 := by
+  have hr : (resume c v).1 = deliver c (.result v) := by unfold resume; simp [hst]
+  rw [hr]
+  obtain ⟨wk', h1, h2, h3⟩ := deliver_unres c fn wf [] (.result v) hst he
+  have hg := deliver_g c (.result v)
+  refine Bar.of_held v wf wk' [] h1 h2 (h3.trans ht) ?_
+  intro f k hk
+  exact (hf.allRes f k hk).congr hg.2.2.2.2.2.2 hg.2.2.2.2.1
+
+theorem step_pre {fn : Nat} {aw0 : List (Nat × Nat)} {t0 : List Act} (P : Prog) (hP : AwDistinct P) (c : Cfg) (ev : Ev)
+    (hR : Reach c) (hok : evOk c ev = true)
+    (wf : Nat) (aw : List (Nat × Nat)) (hst : c.st = .waiting fn wf none aw)
+    (he : c.wfs[wf]? = some .pending ∨ ∃ k, c.wfs[wf]? = some (.interrupted k)) (ht : c.trace = t0)
+    (hf : PreF aw0 aw c) : Bar fn aw0 t0 (step P c ev).1 ∧ (step P c ev).1.trace = t0 := by
+  have hU : UnresA fn aw t0 c := .waiting wf hst he ht
+  by_cases hna : ∃ g, ev = .tickCb (.adone g)
+  · obtain ⟨g, rfl⟩ := hna
+    exact adone_pre c g hR wf aw hst he ht hf
+  · have hna' : ∀ g, ev ≠ .tickCb (.adone g) := fun g h => hna ⟨g, h⟩
+    have hstab := step_stable P hP c ev hR hna'
+    have hf' : PreF aw0 aw (step P c ev).1 := hf.mono hstab.1 hstab.2
+    by_cases hnt : ev = .tick
+    · subst hnt
+      have hU' := tickStepper_unresA P c hR.coh hU
+      exact ⟨Bar.of_unresA hU' hf', hU'.trace⟩
+    · by_cases hnr : ∃ v, ev = .resume v
+      · obtain ⟨v, rfl⟩ := hnr
+        have hnil : aw = [] := by
+          have : (awOf c.st).isEmpty = true := hok
+          rw [hst] at this
+          exact List.isEmpty_iff.mp this
+        subst hnil
+        exact ⟨resume_pre c v wf hst he ht hf, (resume_trace c v).trans ht⟩
+      · have hnr' : ∀ v, ev ≠ .resume v := fun v h => hnr ⟨v, h⟩
+        rcases step_quietU P c ev hnt hna' hnr' with q | ⟨a, b⟩
+        · have hU' := hU.quiet q
+          exact ⟨Bar.of_unresA hU' hf', hU'.trace⟩
+        · exact ⟨.over a (b.trans ht), b.trans ht⟩
+
 end PMF.B10
